@@ -42,7 +42,7 @@ Print Assumptions C11_tree.
 (** The same under a structural premise [tree_wa] instead of the resolution premise: for the children
     of every element that is walked, no child's attribute-form address (Tag[@id=..], Tag[@schemeIdUri=..],
     SegmentTemplate, SegmentTimeline) matches another child of the same list; kept pairs have the same
-    tag, id and schemeIdUri; a removed child is not addressed by position; the address of an inserted
+    tag, id and schemeIdUri; the address of an inserted
     child matches none of the old children still present and vice versa (no move); scripts valid.
     Positional addresses of kept and inserted children need no premise (lastNewIdx is the right index). *)
 Theorem C11_tree_ids : forall diff fuel old new P ctx,
@@ -90,6 +90,18 @@ Theorem C11_handler : forall (mpd_at : Z -> elem) (t1 pt1_ms t2 : Z) ptO ptN o n
                           n <= o + ttl * 1000000000 + 10000000000).
 Proof. exact handler_statuses. Qed.
 Print Assumptions C11_handler.
+
+(** The former witness of the defect repaired by 3800168 (removal of an id-less child addressed by its
+    index among ALL children, BaseURL[3]): Period children [ProgramInformation; BaseURL a; BaseURL b;
+    AdaptationSet] vs [ProgramInformation; BaseURL a; AdaptationSet]. The removal is now addressed
+    BaseURL[2] and the patch gives the new document. (C11_tree_ids needs no premise on removed children
+    any more.) *)
+Theorem C11_idless_removal_applies :
+  exists pd, mpdDiff w_old w_new = Ok pd /\
+    In (ORemove [mkStep "MPD" PNone; mkStep "Period" (PAttr "id" "P0"); mkStep "BaseURL" (PIdx 2)]) (p_ops pd) /\
+    exists new', apply_ops (p_ops pd) w_old = Some new' /\ elem_eqb (canon new') (canon w_new) = true.
+Proof. exact idless_removal_applies. Qed.
+Print Assumptions C11_idless_removal_applies.
 
 (** The model of MyersDiff returns a valid script for all pairs of lists of length <= 4 over three
     letters, and of length <= 6 over two letters (exhaustive evaluation; the bounds are part of the
